@@ -8,7 +8,7 @@ for p in "$@"; do
   git -C $wt checkout -q --detach $(git -C /repo rev-parse HEAD) 2>/dev/null; git -C $wt checkout -q -- . ; git -C $wt clean -fdq
   if ! git -C $wt apply "$p" 2>/dev/null; then echo "$p: PATCH-DOES-NOT-APPLY"; continue; fi
   if [ -n "${BASELINE:-}" ]; then /tmp/scratch/base.sh $wt | grep -v "^ok" | head -3; fi
-  out=$(bin/frugalvet -repo $wt -prop ALL -replaydir /tmp/scratch/seedreplay 2>&1)
+  out=$(${FRUGALVET:-bin/frugalvet} -repo $wt -prop ALL -replaydir /tmp/scratch/seedreplay 2>&1)
   rules=$(echo "$out" | grep -o "\(VIOLATED\|UNDECIDED\) \[[^]]*\]" | sort | uniq -c | tr '\n' ' ')
   err=$(echo "$out" | grep "ANALYSIS-ERROR" | head -2 | cut -c1-200)
   echo "$p: ${rules:-silent} $err"
